@@ -302,3 +302,21 @@ package tsm1
 //@   ensures sorted: sorted_v(result)
 //@   modifies a[:]
 // <<< generated: typed value-slice kernels
+
+// ---- C10: tombstones are re-applied at open with exactly the range each was written with ----
+// applyTombstones batches consecutive tombstones; a batch is applied with ONE (min,max). Ghosts bmin/bmax
+// hold the range of the keys currently in the batch: a key may join a non-empty batch only if its range is
+// the batch's, and every flush must use the batch's range.
+//@ func (*TSMReader).applyTombstones$1
+//@   props C10
+//@   requires t != nil && t.index != nil
+//@   ghost bmin int = ?
+//@   ghost bmax int = ?
+//@   requires batch_range: len(batch) > 0 ==> bmin == prev.Min && bmax == prev.Max
+//@   requires batch_cap: len(batch) < 4096 && cap(batch) == 4096 && batch != nil
+//@   call DeleteRange#1 requires flush_uses_batch_range: prev.Min == bmin && prev.Max == bmax
+//@   call copy#1 requires one_range_per_batch: n == 0 || (bmin == ts.Min && bmax == ts.Max)
+//@   at after copy#1: ghost bmin = ts.Min
+//@   at after copy#1: ghost bmax = ts.Max
+//@   call DeleteRange#2 requires flush_uses_batch_range_full: prev.Min == bmin && prev.Max == bmax
+//@   ensures batch_range: len(batch) > 0 ==> bmin == prev.Min && bmax == prev.Max
